@@ -27,7 +27,7 @@ def make_interp(chk, fi, zde=False, **kw):
             if g is not None and g is not it._cur() and it.depth < 2:
                 res = it.inline(g, ("attr", SELF, attr), (), (), path.fork(), node)
                 if res is not None and len(res) == 1 and res[0][0] == "value":
-                    return strip_sites(res[0][2])
+                    return res[0][2]
         return None
 
     def binop_hook(it, path, op, l, r, node):
@@ -40,9 +40,42 @@ def make_interp(chk, fi, zde=False, **kw):
     return Interp(prog, fi, attr_hook=attr_hook, binop_hook=binop_hook, inline=lambda f, ct: f.cls is cls, **kw)
 
 
+_PROG = {}
+
+
+def _norm_map(t):
+    """sum(map(self.helper, xs)) -> sum(helper-body(x) for x in xs) when helper is a one-expression own method"""
+    if t[0] == "call" and t[1] == SUM and len(t[2]) == 1 and t[2][0][0] == "call" and t[2][0][1] == ("glob", "ext:builtins.map") and len(t[2][0][2]) == 2:
+        f, xs = t[2][0][2]
+        prog, cls = _PROG.get("prog"), _PROG.get("cls")
+        if f[0] == "attr" and f[1] == SELF and prog is not None:
+            m = prog.lookup_method(cls, f[2])
+            if m is not None and len(m.params()) == 1:
+                it = Interp(prog, m)
+                outs = it.run(env={("sym", m.params()[0]): ("bound", "x")})
+                if len(outs) == 1 and outs[0].kind == "return":
+                    return ("call", SUM, (("comp", "gen", strip_sites(outs[0].value), ((("bound", "x"), xs, ()),)),), ())
+    return t
+
+
+def N(t):
+    """strip call-site numbers and normalise sum(map(helper, xs)) everywhere inside the term"""
+    t = strip_sites(t)
+
+    def rec(x):
+        if not isinstance(x, tuple):
+            return x
+        x = tuple(rec(y) for y in x)
+        if x and x[0] == "call":
+            x = _norm_map(x)
+        return x
+
+    return rec(t)
+
+
 def sum_over_children(t):
     """sum(<elt> for x in self.children) -> (elt, bound var) or None"""
-    t = strip_sites(t)
+    t = N(t)
     if not (t[0] == "call" and t[1] == SUM and len(t[2]) == 1 and t[2][0][0] == "comp"):
         return None
     comp = t[2][0]
@@ -83,6 +116,7 @@ def mul_set(t):
 def composite_rules(chk, qual, weighted):
     prog = chk.program
     cls = prog.cls(qual)
+    _PROG.update(prog=prog, cls=cls)
     getter = prog.pick(cls.methods.get("demand", []), "getter")
     setter = prog.pick(cls.methods.get("demand", []), "setter")
     if getter is None or setter is None:
@@ -99,7 +133,7 @@ def composite_rules(chk, qual, weighted):
         outs = make_interp(chk, tw).run()
         if len(outs) != 1 or outs[0].kind != "return":
             raise Undecided("_total_weight is not a single expression", tw.node)
-        total = strip_sites(outs[0].value)
+        total = N(outs[0].value)
         s = sum_over_children(total)
         chk.count()
         if s is None:
@@ -167,7 +201,7 @@ def composite_rules(chk, qual, weighted):
                 ok = False
                 continue
             child = cd[0][1][1]
-            term = strip_sites(cd[0][2])
+            term = N(cd[0][2])
             fell_back = any(e[0] == "caught" for e in o.path.events)
             shares["fallback" if fell_back else "main"].add((term, child))
     # ---- O7.3 share terms ----------------------------------------------------------------
@@ -219,10 +253,10 @@ def composite_rules(chk, qual, weighted):
                 continue
             fell_back = any(e[0] == "caught" for e in o.path.events)
             (fallback if fell_back else main).append(o)
-        if len({strip_sites(o.value) for o in main}) != 1:
+        if len({N(o.value) for o in main}) != 1:
             chk.undecided("O7.4", g.qual, "%s is not a single aggregate expression" % prop, node=g.node)
             continue
-        t = strip_sites(main[0].value)
+        t = N(main[0].value)
         terms[prop] = (t, g)
         good = True
         if prop == "supply":
@@ -282,7 +316,7 @@ def composite_rules(chk, qual, weighted):
                 for (a, b), s_ in o.path.rel.items():
                     if ("const", 0) in (a, b):
                         other = b if a == ("const", 0) else a
-                        if sup is None or strip_sites(other) == sup:
+                        if sup is None or N(other) == sup:
                             rel = it.get_rel(other, ("const", 0), o.path)
                 if rel is None:
                     chk.bad("O7.5", g.qual, "the zero-weight fallback of %s does not depend on the composite's supply" % prop, node=g.node, stmt="%s-fallback-supply" % prop)
